@@ -13,7 +13,7 @@ PROPS = {
         "assumptions": ["the machine-word trackers of number_tracker.rs are covered by the correspondence (the proof is about the boolean-vector tracker they implement)"],
     },
 
-    "C01": {"theorems": ["C01_flat_eval_is_precedence_partial"], "axioms": [],
+    "C01": {"theorems": ["C01_eval_is_reference", "C01_exact_when_flags_are_sound", "C01_free_terms", "C01_any_flat_expression_is_precedence"], "axioms": [],
             "modes": [{"name": "c01", "quick_n": 1500, "thorough_n": 12000, "shard": 120}]},
     "C02": {"theorems": [], "modes": [{"name": "c02", "quick_n": 500, "thorough_n": 4000, "shard": 120}]},
     "C03": {"theorems": [], "modes": [{"name": "c03", "quick_n": 500, "thorough_n": 4000, "shard": 150}]},
